@@ -1,4 +1,5 @@
 import Glas.Model.TySpec
+import Glas.Model.Infer
 import Glas.Lemmas.TySpec
 /-!
 # C09 (part 2) — an assignment of types accepted by the checker is a typing under Gleam's rules
@@ -100,5 +101,38 @@ theorem example2_accepted : checkFn exampleDecls2 3 exampleFn2 = true := by
   simp [h11, Ty.beqs, Ty.beq, annOk]
 
 example : FnOk exampleDecls2 exampleFn2 := checkFn_sound _ _ _ example2_accepted
+
+end Glas.Props.C09
+
+/-! ## The property at full strength, and what is proved of it
+
+`Glas.Infer.inferProgram` is the transliteration of the inference engine (`infer.rs`), tied to the
+real engine on every run by comparing its result with the types glas displays. -/
+
+namespace Glas.Props.C09
+open Glas.TySpec Glas.Infer
+
+/-- the assignment the engine computes, as declarations for the checker -/
+def declsOf (adts : List Adt) (groups : List (List (FnDef × List (Option String)))) : Decls :=
+  let r := inferProgram adts groups
+  { adts := adts
+    fns := groups.flatten.filterMap (fun f => (r.fnTys.lookup f.1.name).map (fun t => { name := f.1.name, labels := f.2, ty := t }))
+    locals := r.locals }
+
+/-- **C09, full strength (NOT proved)**: whenever a program can be typed at all with the engine's
+own binder types being determined, the engine's assignment types every function under Gleam's
+rules.  What is proved is the certificate form below; the gap is the soundness of unification-based
+inference itself (`unify`, instantiation, group order), which is only validated per program. -/
+def C09_full : Prop :=
+  ∀ adts groups, (∃ D : Decls, D.adts = adts ∧ ∀ f ∈ groups.flatten, FnOk D f.1) →
+    ∀ f ∈ groups.flatten, FnOk (declsOf adts groups) f.1
+
+/-- **C09, certificate form (proved)**: for every program, if the checker accepts the engine's
+assignment — which the driver evaluates for every generated program on every run — then that
+assignment types every function under Gleam's rules. -/
+theorem C09_partial (adts : List Adt) (groups : List (List (FnDef × List (Option String)))) (fuel : Nat)
+    (h : ∀ f ∈ groups.flatten, checkFn (declsOf adts groups) fuel f.1 = true) :
+    ∀ f ∈ groups.flatten, FnOk (declsOf adts groups) f.1 :=
+  fun f hf => checkFn_sound _ fuel f.1 (h f hf)
 
 end Glas.Props.C09
